@@ -561,7 +561,8 @@ class ExtrasMixin:
 
     def spec_encodable(self, node, frame):
         v = self.eval(node.args[0], frame)
-        return VBool(_fn("encodable", z3.StringSort(), z3.BoolSort())(v.t))
+        from .builtins_ import enc_pred
+        return VBool(enc_pred(self.run, v.t))
 
     def spec_is_none(self, node, frame):
         v = self.eval(node.args[0], frame)
